@@ -270,6 +270,57 @@ func checkC20(args []string) {
 		}
 		run.Cov["single_field_option_sets_x_boundary_sizes"] = nGrid
 	}
+	// the same single-field option sets on a LARGE busy picture (tens of thousands of coefficient tokens, several
+	// hundred macroblocks): Encode must succeed, the file must decode to that size, and the options that only
+	// distribute or organise the same data (Partitions) must not change a decoded pixel
+	{
+		bigPic := noiseNRGBA(rng, 160, 160, 0)
+		var ref image.Image
+		if out, err, pan := safeEncode(bigPic, optsFromTokens(map[string]int{"Quality": 90, "Method": 4, "SNSStrength": -1, "FilterStrength": -1, "FilterType": -1, "Segments": -1, "Pass": -1, "QMax": -1, "AlphaCompression": -1, "AlphaFiltering": -1, "AlphaQuality": -1})); err == nil && pan == nil {
+			ref, _ = guardedDecode(out)
+		}
+		nBig := 0
+		for _, raw := range res.Tagged("CASE") {
+			var c optCase
+			if json.Unmarshal(raw, &c) != nil || !c.Valid {
+				continue
+			}
+			sig := changedFields(c.Opt)
+			if strings.Count(sig, " ") > 0 || sig == "[]" || c.Opt["TargetSize"] > 0 && c.Opt["TargetSize"] < 600 {
+				continue
+			}
+			k := optKey(c.Opt)
+			if seen["big|"+k] {
+				continue
+			}
+			seen["big|"+k] = true
+			o := optsFromTokens(c.Opt)
+			if sig != "[Quality]" {
+				o.Quality = 90
+			}
+			name := fmt.Sprintf("160x160 noise picture with %s (Quality 90)", k)
+			out, err, pan := safeEncode(bigPic, o)
+			nBig++
+			run.Eval("large-picture|" + k)
+			if pan != nil {
+				run.Violate("panic|"+sig+"|large picture", fmt.Sprintf("Encode panicked on a %s: %v", name, pan), c)
+				continue
+			}
+			if err != nil {
+				run.Violate("valid-rejected|"+sig+"|large picture", fmt.Sprintf("Encode rejected a %s: %v", name, err), c)
+				continue
+			}
+			im, derr := guardedDecode(out)
+			if derr != nil || im.Bounds().Dx() != 160 || im.Bounds().Dy() != 160 {
+				run.Violate("undecodable|"+sig+"|large picture", fmt.Sprintf("%s: the file does not decode to a 160x160 picture (%v)", name, derr), c)
+				continue
+			}
+			if sig == "[Partitions]" && ref != nil && !sameImage(im, ref) {
+				run.Violate("partitions-change-pixels|large picture", name+": decodes to other pixels than the same encode with Partitions 0", c)
+			}
+		}
+		run.Cov["single_field_option_sets_on_a_large_picture"] = nBig
+	}
 	// EmulateJpegSize, nil options, nil arguments, boundary images, oversized metadata
 	d1, _, _ := safeEncode(img, webp.DefaultOptions())
 	// nil options = DefaultOptions(), on pictures on which every default matters: graded and soft-edged alpha (the alpha
